@@ -262,4 +262,12 @@ theorem C31_gen_no_cli_flags :
       [("CrossChainUTXOFreezeHeight", ""), ("CrossChainUTXORestrictionHeight", ""),
        ("FrozenAddresses", "json:\"FrozenAddresses\""), ("ActiveNet", "json:\"ActiveNet\"")] := by decide
 
+/-- the coordinated heights are pinned three ways: the operator documentation
+    (`docs/config.json.md`), the constants of `common/config` and the literals of the model agree -/
+theorem C31_gen_documented_constants :
+    Gen.C31.docLiterals = [("CrossChainUTXOFreezeHeight", mainnetFreeze),
+                           ("CrossChainUTXORestrictionHeight", mainnetRestrict),
+                           ("DisableStartHeight", mainnetFreeze)] ∧
+    Gen.C31.mainnetFreeze = 2256110 ∧ Gen.C31.mainnetRestrict = 2256724 := by decide
+
 end ElaVerif.C31
